@@ -11,6 +11,7 @@ import traceback
 from . import core
 
 ROOT = os.path.dirname(os.path.dirname(os.path.abspath(__file__)))
+REPO_PREFIX = os.environ.get("VSG_REPO", "/repo").rstrip("/") + "/"
 HARNESSES = {}  # name -> instance
 
 
@@ -75,6 +76,18 @@ def _explore_shard(args):
         "exceptions": 0, "cut": 0, "timeout": 0, "nontrivial": 0,
     }
     cexs = []
+    sig_count = {}
+
+    def add_cex(values, detail):
+        try:
+            sig = h.signature(values, p, detail)
+        except Exception as e:  # pragma: no cover
+            sig = "signature-error:%r" % (e,)
+        n = sig_count.get(sig, 0)
+        sig_count[sig] = n + 1
+        if n < 3:
+            cexs.append({"values": values, "detail": detail, "sig": sig})
+
     frontier = []
     samples = []
     unsupported = {}
@@ -108,8 +121,8 @@ def _explore_shard(args):
         except core.Budget as e:
             st["budget"] += 1
             m = eng.current_model()
-            if m is not None and len(cexs) < max_cex:
-                cexs.append({"values": eng.decode(m), "detail": {"kind": "budget", "msg": str(e)}})
+            if m is not None:
+                add_cex(eng.decode(m), {"kind": "budget", "msg": str(e)})
         except Exception as e:  # escaped from the code under check
             if isinstance(e, tuple(h.allowed_exceptions)):
                 st["reached"] += 1
@@ -117,10 +130,22 @@ def _explore_shard(args):
             else:
                 st["exceptions"] += 1
                 m = eng.current_model()
+                if m is None:  # the path condition itself is infeasible: not a behaviour of the code
+                    st["exceptions"] -= 1
+                    st["aborted"] += 1
+                    st["paths"] += 1
+                    if not eng._backtrack():
+                        break
+                    continue
                 tb = traceback.extract_tb(e.__traceback__)
-                where = ["%s:%d:%s" % (f.filename.replace("/repo/", ""), f.lineno, f.name) for f in tb if "/repo/" in f.filename][-3:]
-                if m is not None and len(cexs) < max_cex:
-                    cexs.append({"values": eng.decode(m), "detail": {"kind": "exception", "type": type(e).__name__, "msg": str(e)[:200], "where": where}})
+                where = ["%s:%d:%s" % (f.filename.replace(REPO_PREFIX, ""), f.lineno, f.name) for f in tb if f.filename.startswith(REPO_PREFIX)][-3:]
+                if not where:  # raised by harness code itself, not by the code under check
+                    st["exceptions"] -= 1
+                    st["harness_exc"] = st.get("harness_exc", 0) + 1
+                    k = "HARNESS BUG %s: %s @ %s" % (type(e).__name__, str(e)[:100], ["%s:%d" % (f.filename.rsplit("/", 1)[-1], f.lineno) for f in tb][-2:])
+                    unsupported[k] = unsupported.get(k, 0) + 1
+                elif m is not None:
+                    add_cex(eng.decode(m), {"kind": "exception", "type": type(e).__name__, "msg": str(e)[:200], "where": where})
         if outcome == "end":
             st["reached"] += 1
             if any(e["kind"] in ("b", "c", "p") for e in eng.stack):
@@ -139,7 +164,7 @@ def _explore_shard(args):
                     samples.append({"decisions": len(eng.stack), "vc": str(f)[:300], "info": _jsonable(info)})
             elif verdict == "sat":
                 st["violated"] += 1
-                if len(cexs) < max_cex:
+                if True:
                     failed = []
                     if named:
                         import z3 as _z3
@@ -148,7 +173,7 @@ def _explore_shard(args):
                             ok = c if isinstance(c, bool) else _z3.is_true(m.eval(c, model_completion=True))
                             if not ok and nm not in failed:
                                 failed.append(nm)
-                    cexs.append({"values": eng.decode(m), "detail": {"kind": "vc", "info": _jsonable(info), "failed": failed}})
+                    add_cex(eng.decode(m), {"kind": "vc", "info": _jsonable(info), "failed": failed})
             else:
                 st["unknown"] += 1
         st["paths"] += 1
@@ -159,7 +184,7 @@ def _explore_shard(args):
             break
     st["unknown"] += eng.unknowns
     return {
-        "st": st, "cexs": cexs, "frontier": frontier, "samples": samples, "unsupported": unsupported, "witness": witness,
+        "st": st, "cexs": cexs, "sig_count": sig_count, "frontier": frontier, "samples": samples, "unsupported": unsupported, "witness": witness,
         "wall": time.time() - t_start, "queries": eng.nq, "solver_s": eng.solver_s, "concretizations": eng.concretizations,
         "fork_sites": sorted(eng.fork_sites.items(), key=lambda kv: -kv[1])[:8],
     }
@@ -168,7 +193,11 @@ def _explore_shard(args):
 def _merge(tot, r):
     for k, v in r["st"].items():
         tot["st"][k] = tot["st"].get(k, 0) + v
-    tot["cexs"].extend(r["cexs"])
+    for c in r["cexs"]:
+        if sum(1 for x in tot["cexs"] if x["sig"] == c["sig"]) < 4:
+            tot["cexs"].append(c)
+    for k, v in r.get("sig_count", {}).items():
+        tot["sig_count"][k] = tot["sig_count"].get(k, 0) + v
     tot["samples"].extend(r["samples"][: max(0, 3 - len(tot["samples"]))])
     for k, v in r["unsupported"].items():
         tot["unsupported"][k] = tot["unsupported"].get(k, 0) + v
@@ -198,7 +227,7 @@ def explore(h, p, limits=None, jobs=None):
     """full exploration of harness h with parameters p: iterative-deepening split into shards, then a process pool"""
     limits = dict(limits or {})
     t0 = time.time()
-    tot = {"st": {}, "cexs": [], "samples": [], "unsupported": {}, "witness": None, "queries": 0, "solver_s": 0.0, "concretizations": 0, "fork_sites": []}
+    tot = {"st": {}, "cexs": [], "sig_count": {}, "samples": [], "unsupported": {}, "witness": None, "queries": 0, "solver_s": 0.0, "concretizations": 0, "fork_sites": []}
     pl = pool(jobs)
     target = h.shard_target(p)
     depth = 8
@@ -258,7 +287,7 @@ def run_replay_subprocess(path, timeout=300):
     """-> dict(reproduced: bool, outcome: str)"""
     env = dict(os.environ)
     env["PYTHONHASHSEED"] = "0"
-    env["PYTHONPATH"] = ROOT
+    env["PYTHONPATH"] = os.environ.get("VSG_REPO", "/repo") + os.pathsep + ROOT
     env.pop("COVERAGE_PROCESS_START", None)
     try:
         r = subprocess.run([sys.executable, "-m", "sx.replay", path], cwd=ROOT, env=env, capture_output=True, text=True, timeout=timeout)
@@ -289,7 +318,7 @@ def concrete_run(h, p, values):
         if isinstance(e, tuple(h.allowed_exceptions)):
             return "holds", "allowed exception %s" % type(e).__name__
         tb = traceback.extract_tb(e.__traceback__)
-        where = ["%s:%d:%s" % (f.filename.replace("/repo/", ""), f.lineno, f.name) for f in tb if "/repo/" in f.filename][-3:]
+        where = ["%s:%d:%s" % (f.filename.replace(REPO_PREFIX, ""), f.lineno, f.name) for f in tb if f.filename.startswith(REPO_PREFIX)][-3:]
         return "exception", {"type": type(e).__name__, "msg": str(e)[:200], "where": where}
     phi = core.f_of(phi)
     if core.is_z3(phi):
